@@ -4,12 +4,31 @@ import Proofs.Lemmas.Turns
 import Mathlib.Tactic.Ring
 import Mathlib.Tactic.Linarith
 
+
+/-
+Helper lemmas for the three-point rainflow detector model (`tpBack`, `tpLoop`, `tpProcess`, `tpRun`).
+
+Contents
+* `argmax` / `argmin`: invariance under order-preserving maps, specification (position of the first
+  maximum / minimum).
+* Equivariance of the loop under increasing affine maps (`tpBack_congr`, `tpLoop_congr`) and under
+  negation (`tpBack_neg`, `tpLoop_neg`: highest and lowest front swap), of `findTurns` / `newTurns`
+  and of `tpProcess` / `tpRun` (`tpRun_neg`, `tpRun_affine_of_inv`).
+* `HistInv`: invariant of the detector state in terms of the signal seen so far (bookkeeping state
+  canonical, stack non-empty, `last :: stack` alternates strictly in the direction of the turn scan).
+* Lockstep with the four-point rule: `Uni` (no four consecutive residual values satisfy the
+  four-point closing condition), `Nest` (dropped positions lie between their residual neighbours),
+  `claim_fwd` / `claim_bwd` (position test `start ≥ max lf hf` ⇔ range test `|b-c| ≤ |a-b|`),
+  `tpBack_inner`, `tpBack_step`, `main_fold`, `rescan_step` (re-scanning a stored residual closes
+  nothing), `tpCore_eq_fp`, `tp_eq_fp_step` and finally `tpRun_eq_fpRun : tpRun cs = fpRun cs`.
+-/
+
 namespace PylifeVerif.C03
 open PylifeVerif.Rainflow
 
-/-- Map the value of a point (private copy of `C03.tpMapPt`). -/
+/-- Map the value of a point (private copy of `C03.mapPt`, same definition). -/
 def tpMapPt (f : Int → Int) (p : Pt) : Pt := (p.1, f p.2)
-/-- Map the values of a cycle (private copy of `C03.tpMapCycle`). -/
+/-- Map the values of a cycle (private copy of `C03.mapCycle`, same definition). -/
 def tpMapCycle (f : Int → Int) (c : Cycle) : Cycle := (tpMapPt f c.1, tpMapPt f c.2)
 
 end PylifeVerif.C03
@@ -1114,5 +1133,1196 @@ theorem histInv_step (st : DetState) (c : List Int) (h : HistInv st) : HistInv (
         simp only [hnt, hb, getLast!_eq _ (List.cons_ne_nil c0 tl), hlast2]
         have hbne : st.stack.reverse ≠ [] := by simpa using h3
         exact tpCore_dirOk st.stack.reverse _ _ _ hbne (by simpa using key)
+
+/-! ### Lockstep with the four-point rule: shape invariants -/
+
+/-- `z` lies (weakly) between `x` and `y`. -/
+def Btw (x y z : Int) : Prop := (x ≤ z ∧ z ≤ y) ∨ (y ≤ z ∧ z ≤ x)
+
+/-- No four consecutive values (newest first) satisfy the four-point closing condition. -/
+def Uni : List Int → Prop
+  | x3 :: x2 :: x1 :: x0 :: rest =>
+    ¬(absDiff x1 x2 ≤ absDiff x0 x1 ∧ absDiff x1 x2 ≤ absDiff x2 x3) ∧ Uni (x2 :: x1 :: x0 :: rest)
+  | _ => True
+
+/-- Ranges strictly increasing towards the newest value. -/
+def Inc : List Int → Prop
+  | y :: x :: w :: r => absDiff w x < absDiff x y ∧ Inc (x :: w :: r)
+  | _ => True
+
+/-- Every position strictly between two neighbouring residual positions has a value between
+their values. -/
+def Nest (v : Nat → Int) : List Nat → Prop
+  | p :: q :: r => (∀ i, q < i → i < p → Btw (v q) (v p) (v i)) ∧ Nest v (q :: r)
+  | _ => True
+
+/-- `h` is the first position of the maximum of `v` on `[0, m)`. -/
+def IsMaxPos (v : Nat → Int) (m h : Nat) : Prop :=
+  h < m ∧ (∀ i, i < m → v i ≤ v h) ∧ (∀ i, i < h → v i < v h)
+
+def IsMinPos (v : Nat → Int) (m h : Nat) : Prop :=
+  h < m ∧ (∀ i, i < m → v h ≤ v i) ∧ (∀ i, i < h → v h < v i)
+
+theorem uni_tail (x : Int) (l : List Int) (h : Uni (x :: l)) : Uni l := by
+  match l, h with
+  | [], _ => trivial
+  | [_], _ => trivial
+  | [_, _], _ => trivial
+  | x2 :: x1 :: x0 :: rest, h => exact h.2
+
+theorem uni_inc (rest : List Int) : ∀ (c b a : Int), Uni (c :: b :: a :: rest) →
+    absDiff a b < absDiff b c → Inc (c :: b :: a :: rest) := by
+  induction rest with
+  | nil => intro c b a _ h; exact ⟨h, trivial⟩
+  | cons a' r ih =>
+    intro c b a hu h
+    refine ⟨h, ?_⟩
+    have h1 := hu.1
+    have : absDiff a' a < absDiff a b := by
+      by_contra hc
+      exact h1 ⟨by omega, by omega⟩
+    exact ih b a a' hu.2 this
+
+theorem hull_below (v : Nat → Int) (prest : List Nat) : ∀ (u : Bool) (py px : Nat),
+    AltR u ((py :: px :: prest).map v) → Inc ((py :: px :: prest).map v) →
+    Nest v (py :: px :: prest) → (py :: px :: prest).getLast? = some 0 →
+    ∀ q, q ≤ py → Btw (v px) (v py) (v q) := by
+  induction prest with
+  | nil =>
+    intro u py px _ _ hn hl q hq
+    simp only [List.getLast?_cons_cons, List.getLast?_singleton, Option.some.injEq] at hl
+    subst hl
+    by_cases h1 : q = py
+    · subst h1; unfold Btw; omega
+    · by_cases h2 : q = 0
+      · subst h2; unfold Btw; omega
+      · exact hn.1 q (by omega) (by omega)
+  | cons pw r ih =>
+    intro u py px ha hi hn hl q hq
+    by_cases h1 : q = py
+    · subst h1; unfold Btw; omega
+    · by_cases h2 : px < q
+      · exact hn.1 q h2 (by omega)
+      · simp only [List.map_cons] at ha hi
+        have ha2 : AltR (!u) (v px :: v pw :: r.map v) := ha.2
+        have key := ih (!u) px pw (by simpa using ha2) (by simpa using hi.2) hn.2
+          (by simpa [List.getLast?_cons_cons] using hl) q (by omega)
+        have hi1 := hi.1
+        have ha1 := ha.1
+        have ha3 := ha2.1
+        unfold Btw at key ⊢
+        unfold absDiff at hi1
+        cases u <;> simp at ha1 ha3 <;> omega
+
+/-- Three-point position test implies the first four-point range test. -/
+theorem claim_fwd (v : Nat → Int) (u : Bool) (front start : Nat) (rest : List Nat) (m hf lf : Nat)
+    (ha : AltR u ((front :: start :: rest).map v)) (hu : Uni ((front :: start :: rest).map v))
+    (hn : Nest v (start :: rest)) (hl : (front :: start :: rest).getLast? = some 0)
+    (hmax : IsMaxPos v m hf) (hmin : IsMinPos v m lf) (hfm : front < m)
+    (hpos : max lf hf ≤ start) :
+    ∃ a rest', rest = a :: rest' ∧ absDiff (v start) (v front) ≤ absDiff (v a) (v start) := by
+  have h1 := hmax.2.1 front hfm
+  have h2 := hmin.2.1 front hfm
+  cases rest with
+  | nil =>
+    exfalso
+    simp only [List.getLast?_cons_cons, List.getLast?_singleton, Option.some.injEq] at hl
+    subst hl
+    have e1 : lf = 0 := by omega
+    have e2 : hf = 0 := by omega
+    subst e1 e2
+    simp only [List.map_cons, List.map_nil, AltR] at ha
+    have := ha.1
+    cases u <;> simp at this <;> omega
+  | cons a rest' =>
+    refine ⟨a, rest', rfl, ?_⟩
+    by_contra hc
+    have hinc := uni_inc (rest'.map v) (v front) (v start) (v a) (by simpa using hu) (by omega)
+    simp only [List.map_cons] at ha
+    have ha2 : AltR (!u) (v start :: v a :: rest'.map v) := ha.2
+    have hb := hull_below v rest' (!u) start a (by simpa using ha2) (by simpa using hinc.2) hn
+      (by simpa [List.getLast?_cons_cons] using hl)
+    have b1 := hb lf (by omega)
+    have b2 := hb hf (by omega)
+    have ha1 := ha.1
+    have ha3 := ha2.1
+    unfold Btw at b1 b2
+    unfold absDiff at hc
+    cases u <;> simp at ha1 ha3 <;> omega
+
+/-- What is known about the positions above the current front inside one `tpBack` run:
+either there are none, or their values lie between the front and the start `upv` of the cycle
+closed last, which itself lies between the front and the new point. -/
+def WInv (v : Nat → Int) (k : Nat) (d : Int) (u : Bool) (ri : List Nat) (above : Option Int) : Prop :=
+  match ri, above with
+  | front :: _, none => front + 1 = k
+  | front :: _, some upv =>
+    (∀ i, front < i → i < k → Btw (v front) upv (v i)) ∧ Btw (v front) d upv ∧
+      Uni (upv :: ri.map v) ∧ AltR u (upv :: ri.map v)
+  | [], _ => False
+
+/-- The four-point range test implies the three-point position test. -/
+theorem claim_bwd (v : Nat → Int) (u : Bool) (k : Nat) (d : Int) (front start a : Nat)
+    (rest : List Nat) (hf lf : Nat) (above : Option Int)
+    (ha : AltR u (d :: (front :: start :: a :: rest).map v))
+    (hn : Nest v (front :: start :: a :: rest))
+    (hs1 : start < front) (hs2 : a < start)
+    (hw : WInv v k d u (front :: start :: a :: rest) above)
+    (hmax : IsMaxPos v k hf) (hmin : IsMinPos v k lf)
+    (hc : absDiff (v start) (v front) ≤ absDiff (v a) (v start)) :
+    max lf hf ≤ start := by
+  simp only [List.map_cons, AltR] at ha
+  obtain ⟨ha1, ha2, ha3, _⟩ := ha
+  have hn1 := hn.1
+  obtain ⟨hx1, hx2, hx3⟩ := hmax
+  obtain ⟨hy1, hy2, hy3⟩ := hmin
+  unfold absDiff at hc
+  by_contra hcon
+  have hcases : start < hf ∨ start < lf := by omega
+  rcases hcases with hh | hh
+  · have e1 := hx3 start hh
+    have e2 := hx3 a (by omega)
+    by_cases c1 : hf < front
+    · have := hn1 hf hh c1
+      unfold Btw at this
+      cases u <;> simp at ha1 ha2 ha3 <;> omega
+    · by_cases c2 : hf = front
+      · subst c2
+        cases u <;> simp at ha1 ha2 ha3 <;> omega
+      · cases above with
+        | none => simp only [WInv] at hw; omega
+        | some upv =>
+          simp only [WInv, List.map_cons] at hw
+          obtain ⟨w1, _, w3, w4⟩ := hw
+          have w1' := w1 hf (by omega) hx1
+          have w3' := w3.1
+          have w4' := w4.1
+          unfold Btw at w1'
+          unfold absDiff at w3'
+          cases u <;> simp at ha1 ha2 ha3 w4' <;> omega
+  · have e1 := hy3 start hh
+    have e2 := hy3 a (by omega)
+    by_cases c1 : lf < front
+    · have := hn1 lf hh c1
+      unfold Btw at this
+      cases u <;> simp at ha1 ha2 ha3 <;> omega
+    · by_cases c2 : lf = front
+      · subst c2
+        cases u <;> simp at ha1 ha2 ha3 <;> omega
+      · cases above with
+        | none => simp only [WInv] at hw; omega
+        | some upv =>
+          simp only [WInv, List.map_cons] at hw
+          obtain ⟨w1, _, w3, w4⟩ := hw
+          have w1' := w1 lf (by omega) hy1
+          have w3' := w3.1
+          have w4' := w4.1
+          unfold Btw at w1'
+          unfold absDiff at w3'
+          cases u <;> simp at ha1 ha2 ha3 w4' <;> omega
+
+theorem fpClose_pos' (c b a : Pt) (rest : List Pt) (d : Int)
+    (h : absDiff b.2 c.2 ≤ absDiff a.2 b.2 ∧ absDiff b.2 c.2 ≤ absDiff c.2 d) :
+    fpClose (c :: b :: a :: rest) d =
+      ((b, c) :: (fpClose (a :: rest) d).1, (fpClose (a :: rest) d).2) := by
+  rw [fpClose]; simp [h]
+
+theorem fpClose_neg' (c b a : Pt) (rest : List Pt) (d : Int)
+    (h : ¬ (absDiff b.2 c.2 ≤ absDiff a.2 b.2 ∧ absDiff b.2 c.2 ≤ absDiff c.2 d)) :
+    fpClose (c :: b :: a :: rest) d = ([], c :: b :: a :: rest) := by
+  rw [fpClose]; simp [h]
+
+theorem fpClose_one (c : Pt) (d : Int) : fpClose [c] d = ([], [c]) := by
+  rw [fpClose]; simp
+
+theorem fpClose_two (c b : Pt) (d : Int) : fpClose [c, b] d = ([], [c, b]) := by
+  rw [fpClose]; simp
+
+theorem winv_nest (v : Nat → Int) (k : Nat) (d : Int) (u : Bool) (front : Nat) (r : List Nat)
+    (above : Option Int) (hw : WInv v k d u (front :: r) above) :
+    ∀ i, front < i → i < k → Btw (v front) d (v i) := by
+  intro i h1 h2
+  cases above with
+  | none => simp only [WInv] at hw; omega
+  | some upv =>
+    simp only [WInv] at hw
+    have a1 := hw.1 i h1 h2
+    have a2 := hw.2.1
+    unfold Btw at a1 a2 ⊢
+    omega
+
+/-- The closing loop of `tpBack` at position `k`, once the extreme positions `hf`, `lf` cover all
+positions below `k`, does exactly what `fpClose` does on the corresponding stack of points. -/
+theorem tpBack_inner (t : Array Int) (P : Nat → Pt) (k : Nat)
+    (hP : ∀ i, i < k → (P i).2 = t[i]!) (u : Bool) (hf lf : Nat)
+    (hmax : IsMaxPos (fun i => t[i]!) k hf) (hmin : IsMinPos (fun i => t[i]!) k lf) :
+    ∀ (fuel : Nat) (ri : List Nat) (cyc : List (Nat × Nat)) (above : Option Int),
+      ri.length / 2 + 1 ≤ fuel → ri.Pairwise (· > ·) → (∀ i ∈ ri, i < k) → ri.getLast? = some 0 →
+      AltR u (t[k]! :: ri.map (fun i => t[i]!)) → Uni (ri.map (fun i => t[i]!)) →
+      Nest (fun i => t[i]!) ri → WInv (fun i => t[i]!) k t[k]! u ri above →
+      ∃ (ri' : List Nat) (cyc' : List (Nat × Nat)),
+        tpBack t k fuel ⟨ri, hf, lf, cyc⟩ = ⟨k :: ri', hf, lf, cyc ++ cyc'⟩ ∧
+        fpClose (ri.map P) t[k]! = (cyc'.map (fun c => (P c.1, P c.2)), ri'.map P) ∧
+        Uni (t[k]! :: ri'.map (fun i => t[i]!)) ∧ Nest (fun i => t[i]!) (k :: ri') ∧
+        ∃ pre, ri = pre ++ ri' := by
+  intro fuel
+  induction fuel with
+  | zero => intro ri cyc above h; omega
+  | succ fuel ih =>
+    intro ri cyc above hfuel hsrt hbnd hlast ha hu hn hw
+    match ri, hfuel, hsrt, hbnd, hlast, ha, hu, hn, hw with
+    | [], _, _, _, hlast, _, _, _, _ => simp at hlast
+    | [x], _, _, _, hlast, _, _, _, hw =>
+      simp only [List.getLast?_singleton, Option.some.injEq] at hlast
+      subst hlast
+      refine ⟨[0], [], by simp [tpBack], by simp [fpClose_one], trivial, ?_, [], rfl⟩
+      exact ⟨winv_nest _ k _ u 0 [] above hw, trivial⟩
+    | front :: start :: rest, hfuel, hsrt, hbnd, hlast, ha, hu, hn, hw =>
+      have hfk : front < k := hbnd front (by simp)
+      have hsk : start < k := hbnd start (by simp)
+      have hsf : start < front := by
+        simp only [List.pairwise_cons] at hsrt
+        exact hsrt.1 start (by simp)
+      have c1 : ¬ t[front]! > t[hf]! := by have := hmax.2.1 front hfk; simp only at this; omega
+      have c2 : ¬ t[front]! < t[lf]! := by have := hmin.2.1 front hfk; simp only at this; omega
+      have hnestTop : Nest (fun i => t[i]!) (k :: front :: start :: rest) :=
+        ⟨winv_nest _ k _ u front _ above hw, hn⟩
+      have ha' : AltR (!u) ((front :: start :: rest).map (fun i => t[i]!)) := by
+        simp only [List.map_cons, AltR] at ha ⊢
+        exact ha.2
+      simp only [tpBack, if_neg c1, if_neg c2]
+      cases rest with
+      | nil =>
+        -- two residual positions: nothing can be closed
+        have c3 : ¬ (start ≥ max lf hf ∧ absDiff t[k]! t[front]! ≥ absDiff t[front]! t[start]!) := by
+          intro hc
+          obtain ⟨a, r', h1, _⟩ := claim_fwd _ (!u) front start [] k hf lf ha' hu hn.2 hlast hmax hmin
+            hfk hc.1
+          simp at h1
+        simp only [if_neg c3]
+        exact ⟨[front, start], [], by simp, by simp [fpClose_two], trivial, hnestTop, [], rfl⟩
+      | cons a rest' =>
+        have hak : a < k := hbnd a (by simp)
+        have has : a < start := by
+          simp only [List.pairwise_cons] at hsrt
+          exact hsrt.2.1 a (by simp)
+        have hcond : (start ≥ max lf hf ∧ absDiff t[k]! t[front]! ≥ absDiff t[front]! t[start]!) ↔
+            (absDiff (P start).2 (P front).2 ≤ absDiff (P a).2 (P start).2 ∧
+              absDiff (P start).2 (P front).2 ≤ absDiff (P front).2 t[k]!) := by
+          rw [hP front hfk, hP start hsk, hP a hak]
+          have e1 : absDiff t[k]! t[front]! = absDiff t[front]! t[k]! := by unfold absDiff; omega
+          have e2 : absDiff t[front]! t[start]! = absDiff t[start]! t[front]! := by unfold absDiff; omega
+          rw [e1, e2]
+          constructor
+          · intro ⟨h1, h2⟩
+            obtain ⟨a', r', h3, h4⟩ := claim_fwd _ (!u) front start (a :: rest') k hf lf ha' hu hn.2
+              hlast hmax hmin hfk h1
+            simp only [List.cons.injEq] at h3
+            obtain ⟨rfl, _⟩ := h3
+            exact ⟨h4, h2⟩
+          · intro ⟨h1, h2⟩
+            exact ⟨claim_bwd _ u k _ front start a rest' hf lf above ha hn hsf has hw hmax hmin h1, h2⟩
+        by_cases hc : (start ≥ max lf hf ∧ absDiff t[k]! t[front]! ≥ absDiff t[front]! t[start]!)
+        · -- both rules close (start, front)
+          have hc4 := hcond.1 hc
+          simp only [if_pos hc, List.map_cons]
+          rw [fpClose_pos' _ _ _ _ _ hc4]
+          have hc4' := hc4
+          rw [hP front hfk, hP start hsk, hP a hak] at hc4'
+          simp only [List.map_cons] at ha hu
+          have hsrt' : (a :: rest').Pairwise (· > ·) := by
+            simp only [List.pairwise_cons] at hsrt ⊢
+            exact hsrt.2.2
+          have haR : AltR u (t[k]! :: (a :: rest').map (fun i => t[i]!)) := by
+            simp only [List.map_cons]
+            apply altR_remove0 u _ _ _ _ _ ha
+            have := hc.2
+            unfold absDiff at this ⊢
+            omega
+          have hwR : WInv (fun i => t[i]!) k t[k]! u (a :: rest') (some t[start]!) := by
+            simp only [WInv, List.map_cons]
+            have z1 := ha.1
+            have z2 := ha.2.1
+            have z3 := ha.2.2.1
+            have q1 := hc4'.1
+            have q2 := hc4'.2
+            unfold absDiff at q1 q2
+            refine ⟨?_, ?_, uni_tail _ _ hu, ?_⟩
+            · intro i hi1 hi2
+              by_cases g1 : i < start
+              · exact hn.2.1 i hi1 g1
+              · by_cases g2 : i = start
+                · subst g2; unfold Btw; omega
+                · by_cases g3 : i < front
+                  · have := hn.1 i (by omega) g3
+                    unfold Btw at this ⊢
+                    beta_reduce at this ⊢
+                    cases u <;> simp at z1 z2 z3 <;> omega
+                  · by_cases g4 : i = front
+                    · subst g4
+                      unfold Btw
+                      cases u <;> simp at z1 z2 z3 <;> omega
+                    · cases above with
+                      | none => simp only [WInv] at hw; omega
+                      | some upv =>
+                        simp only [WInv, List.map_cons] at hw
+                        obtain ⟨w1, _, w3, w4⟩ := hw
+                        have w1' := w1 i (by omega) hi2
+                        have w3' := w3.1
+                        have w4' := w4.1
+                        unfold Btw at w1' ⊢
+                        unfold absDiff at w3'
+                        beta_reduce at w1' w3' w4' ⊢
+                        cases u <;> simp at z1 z2 z3 w4' <;> omega
+            · unfold Btw
+              cases u <;> simp at z1 z2 z3 <;> omega
+            · have := ha.2.2
+              simpa using this
+          obtain ⟨ri', cyc'', r1, r2, r3, r4, pre, r5⟩ := ih (a :: rest') (cyc ++ [(start, front)])
+            (some t[start]!) (by simp only [List.length_cons] at hfuel ⊢; omega) hsrt'
+            (fun i hi => hbnd i (by simp [hi])) (by simpa [List.getLast?_cons_cons] using hlast)
+            haR (uni_tail _ _ (uni_tail _ _ hu)) hn.2.2 hwR
+          refine ⟨ri', (start, front) :: cyc'', ?_, ?_, r3, r4, front :: start :: pre, by simp [r5]⟩
+          · rw [r1]; simp
+          · simp only [List.map_cons] at r2
+            rw [r2]; simp
+        · -- neither rule closes
+          have hc4 : ¬ _ := fun h => hc (hcond.2 h)
+          simp only [if_neg hc, List.map_cons]
+          rw [fpClose_neg' _ _ _ _ _ hc4]
+          refine ⟨front :: start :: a :: rest', [], by simp, by simp, ?_, hnestTop, [], rfl⟩
+          rw [hP front hfk, hP start hsk, hP a hak] at hc4
+          exact ⟨hc4, hu⟩
+
+/-- One full `tpBack` at position `k` (examination of the front `k-1` for a new extreme, then the
+closing loop) against `fpClose`. -/
+theorem tpBack_step (t : Array Int) (P : Nat → Pt) (k : Nat)
+    (hP : ∀ i, i < k → (P i).2 = t[i]!) (u : Bool) (hf lf : Nat)
+    (hext : (IsMaxPos (fun i => t[i]!) (k - 1) hf ∧ IsMinPos (fun i => t[i]!) (k - 1) lf) ∨
+      (IsMaxPos (fun i => t[i]!) k hf ∧ IsMinPos (fun i => t[i]!) k lf))
+    (fuel : Nat) (ri : List Nat) (cyc : List (Nat × Nat))
+    (hfuel : ri.length / 2 + 1 ≤ fuel) (hsrt : ri.Pairwise (· > ·)) (hbnd : ∀ i ∈ ri, i < k)
+    (htop : ∃ r, ri = (k - 1) :: r) (hk : 1 ≤ k)
+    (hlast : ri.getLast? = some 0)
+    (ha : AltR u (t[k]! :: ri.map (fun i => t[i]!))) (hu : Uni (ri.map (fun i => t[i]!)))
+    (hn : Nest (fun i => t[i]!) ri) :
+    ∃ (ri' : List Nat) (cyc' : List (Nat × Nat)) (hf' lf' : Nat),
+      tpBack t k fuel ⟨ri, hf, lf, cyc⟩ = ⟨k :: ri', hf', lf', cyc ++ cyc'⟩ ∧
+      fpClose (ri.map P) t[k]! = (cyc'.map (fun c => (P c.1, P c.2)), ri'.map P) ∧
+      Uni (t[k]! :: ri'.map (fun i => t[i]!)) ∧ Nest (fun i => t[i]!) (k :: ri') ∧
+      IsMaxPos (fun i => t[i]!) k hf' ∧ IsMinPos (fun i => t[i]!) k lf' ∧
+      ∃ pre, ri = pre ++ ri' := by
+  obtain ⟨r, hr⟩ := htop
+  have hw : WInv (fun i => t[i]!) k t[k]! u ri none := by
+    rw [hr]; simp only [WInv]; omega
+  have inner : ∀ (hmax : IsMaxPos (fun i => t[i]!) k hf) (hmin : IsMinPos (fun i => t[i]!) k lf), _ :=
+    fun hmax hmin => tpBack_inner t P k hP u hf lf hmax hmin fuel ri cyc none hfuel hsrt hbnd hlast
+      ha hu hn hw
+  rcases hext with ⟨hmax, hmin⟩ | ⟨hmax, hmin⟩
+  · obtain ⟨hx1, hx2, hx3⟩ := hmax
+    obtain ⟨hy1, hy2, hy3⟩ := hmin
+    simp only at hx2 hx3 hy2 hy3
+    have hlh : t[lf]! ≤ t[hf]! := hx2 lf hy1
+    by_cases c1 : t[k - 1]! > t[hf]!
+    · -- new highest front
+      have hmax' : IsMaxPos (fun i => t[i]!) k (k - 1) := by
+        refine ⟨by omega, ?_, ?_⟩
+        · intro i hi
+          simp only
+          by_cases hi' : i < k - 1
+          · have := hx2 i hi'; omega
+          · have : i = k - 1 := by omega
+            subst this; omega
+        · intro i hi
+          simp only
+          have := hx2 i hi; omega
+      have hmin' : IsMinPos (fun i => t[i]!) k lf := by
+        refine ⟨by omega, ?_, hy3⟩
+        intro i hi
+        simp only
+        by_cases hi' : i < k - 1
+        · exact hy2 i hi'
+        · have : i = k - 1 := by omega
+          subst this; omega
+      subst hr
+      match r, hfuel, hlast, ha, hu, hn, hsrt, hbnd with
+      | [], _, hlast, _, _, _, _, _ =>
+        simp only [List.getLast?_singleton, Option.some.injEq] at hlast
+        omega
+      | [start], hfuel, _, _, _, hn, _, _ =>
+        have : fuel = (fuel - 1) + 1 := by simp only [List.length_cons] at hfuel; omega
+        rw [this]
+        refine ⟨[k - 1, start], [], k - 1, lf, by simp [tpBack, c1], by simp [fpClose_two], trivial,
+          ⟨?_, hn⟩, hmax', hmin', [], rfl⟩
+        intro i h1 h2; omega
+      | start :: a :: rest, hfuel, _, ha, hu, hn, hsrt, hbnd =>
+        have : fuel = (fuel - 1) + 1 := by simp only [List.length_cons] at hfuel; omega
+        rw [this]
+        have hsk : start < k - 1 := by
+          simp only [List.pairwise_cons] at hsrt
+          exact hsrt.1 start (by simp)
+        have hak : a < k - 1 := by
+          simp only [List.pairwise_cons] at hsrt
+          exact hsrt.1 a (by simp)
+        have e1 := hx2 start hsk
+        have e2 := hx2 a hak
+        have hc4 : ¬ (absDiff (P start).2 (P (k - 1)).2 ≤ absDiff (P a).2 (P start).2 ∧
+            absDiff (P start).2 (P (k - 1)).2 ≤ absDiff (P (k - 1)).2 t[k]!) := by
+          rw [hP (k - 1) (by omega), hP start (by omega), hP a (by omega)]
+          simp only [List.map_cons, AltR] at ha
+          have z2 := ha.2.1
+          have z3 := ha.2.2.1
+          unfold absDiff
+          cases u <;> simp at z2 z3 <;> omega
+        refine ⟨(k - 1) :: start :: a :: rest, [], k - 1, lf, by simp [tpBack, c1],
+          by simp [fpClose_neg' _ _ _ _ _ hc4], ?_, ⟨?_, hn⟩, hmax', hmin', [], rfl⟩
+        · rw [hP (k - 1) (by omega), hP start (by omega), hP a (by omega)] at hc4
+          exact ⟨hc4, hu⟩
+        · intro i h1 h2; omega
+    · by_cases c2 : t[k - 1]! < t[lf]!
+      · -- new lowest front
+        have hmin' : IsMinPos (fun i => t[i]!) k (k - 1) := by
+          refine ⟨by omega, ?_, ?_⟩
+          · intro i hi
+            simp only
+            by_cases hi' : i < k - 1
+            · have := hy2 i hi'; omega
+            · have : i = k - 1 := by omega
+              subst this; omega
+          · intro i hi
+            simp only
+            have := hy2 i hi; omega
+        have hmax' : IsMaxPos (fun i => t[i]!) k hf := by
+          refine ⟨by omega, ?_, hx3⟩
+          intro i hi
+          simp only
+          by_cases hi' : i < k - 1
+          · exact hx2 i hi'
+          · have : i = k - 1 := by omega
+            subst this; omega
+        subst hr
+        match r, hfuel, hlast, ha, hu, hn, hsrt, hbnd with
+        | [], _, hlast, _, _, _, _, _ =>
+          simp only [List.getLast?_singleton, Option.some.injEq] at hlast
+          omega
+        | [start], hfuel, _, _, _, hn, _, _ =>
+          have : fuel = (fuel - 1) + 1 := by simp only [List.length_cons] at hfuel; omega
+          rw [this]
+          refine ⟨[k - 1, start], [], hf, k - 1, by simp [tpBack, c1, c2], by simp [fpClose_two],
+            trivial, ⟨?_, hn⟩, hmax', hmin', [], rfl⟩
+          intro i h1 h2; omega
+        | start :: a :: rest, hfuel, _, ha, hu, hn, hsrt, hbnd =>
+          have : fuel = (fuel - 1) + 1 := by simp only [List.length_cons] at hfuel; omega
+          rw [this]
+          have hsk : start < k - 1 := by
+            simp only [List.pairwise_cons] at hsrt
+            exact hsrt.1 start (by simp)
+          have hak : a < k - 1 := by
+            simp only [List.pairwise_cons] at hsrt
+            exact hsrt.1 a (by simp)
+          have e1 := hy2 start hsk
+          have e2 := hy2 a hak
+          have hc4 : ¬ (absDiff (P start).2 (P (k - 1)).2 ≤ absDiff (P a).2 (P start).2 ∧
+              absDiff (P start).2 (P (k - 1)).2 ≤ absDiff (P (k - 1)).2 t[k]!) := by
+            rw [hP (k - 1) (by omega), hP start (by omega), hP a (by omega)]
+            simp only [List.map_cons, AltR] at ha
+            have z2 := ha.2.1
+            have z3 := ha.2.2.1
+            unfold absDiff
+            cases u <;> simp at z2 z3 <;> omega
+          refine ⟨(k - 1) :: start :: a :: rest, [], hf, k - 1, by simp [tpBack, c1, c2],
+            by simp [fpClose_neg' _ _ _ _ _ hc4], ?_, ⟨?_, hn⟩, hmax', hmin', [], rfl⟩
+          · rw [hP (k - 1) (by omega), hP start (by omega), hP a (by omega)] at hc4
+            exact ⟨hc4, hu⟩
+          · intro i h1 h2; omega
+      · -- no new extreme
+        have hmax' : IsMaxPos (fun i => t[i]!) k hf := by
+          refine ⟨by omega, ?_, hx3⟩
+          intro i hi
+          simp only
+          by_cases hi' : i < k - 1
+          · exact hx2 i hi'
+          · have : i = k - 1 := by omega
+            subst this; omega
+        have hmin' : IsMinPos (fun i => t[i]!) k lf := by
+          refine ⟨by omega, ?_, hy3⟩
+          intro i hi
+          simp only
+          by_cases hi' : i < k - 1
+          · exact hy2 i hi'
+          · have : i = k - 1 := by omega
+            subst this; omega
+        obtain ⟨ri', cyc', h1, h2, h3, h4, h5⟩ := inner hmax' hmin'
+        exact ⟨ri', cyc', hf, lf, h1, h2, h3, h4, hmax', hmin', h5⟩
+  · obtain ⟨ri', cyc', h1, h2, h3, h4, h5⟩ := inner hmax hmin
+    exact ⟨ri', cyc', hf, lf, h1, h2, h3, h4, hmax, hmin, h5⟩
+
+theorem altR_drop (pre l : List Int) : ∀ u, AltR u (pre ++ l) → ∃ u', AltR u' l := by
+  induction pre with
+  | nil => intro u h; exact ⟨u, h⟩
+  | cons p pre ih =>
+    intro u h
+    cases hpl : pre ++ l with
+    | nil =>
+      have : l = [] := by
+        cases pre <;> simp_all
+      exact ⟨u, by rw [this]; trivial⟩
+    | cons q r =>
+      rw [List.cons_append, hpl] at h
+      exact ih (!u) (by rw [hpl]; exact h.2)
+
+/-- Invariant of the three-point loop before position `k` is processed (`vl`: all values,
+oldest first). -/
+structure Stage (vl : List Int) (k : Nat) (L : TpLoop) : Prop where
+  srt : L.ri.Pairwise (· > ·)
+  bnd : ∀ i ∈ L.ri, i < k
+  top : ∃ r, L.ri = (k - 1) :: r
+  last : L.ri.getLast? = some 0
+  alt : ∃ u, AltR u (futRev vl k ++ L.ri.map (fun i => vl.toArray[i]!))
+  uni : Uni (L.ri.map (fun i => vl.toArray[i]!))
+  nest : Nest (fun i => vl.toArray[i]!) L.ri
+  ext : (IsMaxPos (fun i => vl.toArray[i]!) (k - 1) L.hf ∧ IsMinPos (fun i => vl.toArray[i]!) (k - 1) L.lf) ∨
+      (IsMaxPos (fun i => vl.toArray[i]!) k L.hf ∧ IsMinPos (fun i => vl.toArray[i]!) k L.lf)
+
+theorem stage_step (vl : List Int) (P : Nat → Pt) (k : Nat) (hk1 : 1 ≤ k) (hkN : k < vl.length)
+    (hP : ∀ i, i < k → (P i).2 = vl.toArray[i]!) (L : TpLoop) (hS : Stage vl k L) :
+    ∃ (ri' : List Nat) (cyc' : List (Nat × Nat)),
+      (tpBack vl.toArray k (L.ri.length / 2 + 1) L).ri = k :: ri' ∧
+      (tpBack vl.toArray k (L.ri.length / 2 + 1) L).cycles = L.cycles ++ cyc' ∧
+      fpClose (L.ri.map P) vl.toArray[k]! = (cyc'.map (fun c => (P c.1, P c.2)), ri'.map P) ∧
+      Stage vl (k + 1) (tpBack vl.toArray k (L.ri.length / 2 + 1) L) := by
+  obtain ⟨hsrt, hbnd, htop, hlast, ⟨u, halt⟩, huni, hnest, hext⟩ := hS
+  rw [futRev_succ vl k hkN, List.append_assoc, List.singleton_append] at halt
+  obtain ⟨u', halt'⟩ := altR_drop _ _ u halt
+  obtain ⟨ri, hf, lf, cyc⟩ := L
+  simp only at hsrt hbnd htop hlast halt huni hnest hext halt'
+  obtain ⟨ri', cyc', hf', lf', e1, e2, e3, e4, e5, e6, pre, e7⟩ :=
+    tpBack_step vl.toArray P k hP u' hf lf hext (ri.length / 2 + 1) ri cyc (Nat.le_refl _) hsrt hbnd
+      htop hk1 hlast halt' huni hnest
+  obtain ⟨a1, a2⟩ := tpBack_alt vl.toArray k (futRev vl (k + 1)) u (ri.length / 2 + 1)
+    ⟨ri, hf, lf, cyc⟩ halt hlast
+  have hsub : ri'.Sublist ri := by rw [e7]; exact List.sublist_append_right _ _
+  refine ⟨ri', cyc', by rw [e1], by rw [e1], e2, ?_⟩
+  simp only at a1 a2 ⊢
+  rw [e1] at a1 a2 ⊢
+  exact {
+    srt := by
+      simp only [List.pairwise_cons]
+      exact ⟨fun i hi => hbnd i (hsub.subset hi), hsrt.sublist hsub⟩
+    bnd := by
+      intro i hi
+      simp only [List.mem_cons] at hi
+      rcases hi with rfl | hi
+      · omega
+      · have := hbnd i (hsub.subset hi); omega
+    top := ⟨ri', by simp⟩
+    last := a2
+    alt := ⟨u, a1⟩
+    uni := by simpa using e3
+    nest := e4
+    ext := Or.inl (by rw [Nat.add_sub_cancel]; exact ⟨e5, e6⟩) }
+
+/-- position cycle to point cycle -/
+def posCyc (P : Nat → Pt) (c : Nat × Nat) : Cycle := (P c.1, P c.2)
+
+/-- Processing the turn positions `k0, …, k0+j-1` with the three-point loop is `fpFeed` on the
+corresponding points. -/
+theorem main_fold (vl : List Int) (P : Nat → Pt)
+    (hP : ∀ i, i + 1 < vl.length → (P i).2 = vl.toArray[i]!) :
+    ∀ (j k0 : Nat) (L : TpLoop), 2 ≤ k0 → k0 + j < vl.length → Stage vl k0 L →
+      Stage vl (k0 + j) ((List.range' (k0 - 2) j).foldl (tpStep vl.toArray) L) ∧
+      ((List.range' (k0 - 2) j).foldl (tpStep vl.toArray) L).ri.map P =
+        (fpFeed (L.ri.map P) ((List.range' k0 j).map P)).2 ∧
+      ((List.range' (k0 - 2) j).foldl (tpStep vl.toArray) L).cycles.map (posCyc P) =
+        L.cycles.map (posCyc P) ++ (fpFeed (L.ri.map P) ((List.range' k0 j).map P)).1 := by
+  intro j
+  induction j with
+  | zero => intro k0 L _ _ hS; simpa [fpFeed] using hS
+  | succ j ih =>
+    intro k0 L hk0 hlen hS
+    simp only [List.range'_succ, List.foldl_cons, List.map_cons, fpFeed, fpPush]
+    have hstep : tpStep vl.toArray L (k0 - 2) = tpBack vl.toArray k0 (L.ri.length / 2 + 1) L := by
+      unfold tpStep
+      have : k0 - 2 + 2 = k0 := by omega
+      rw [this]
+    obtain ⟨ri', cyc', e1, e2, e3, e4⟩ := stage_step vl P k0 (by omega) (by omega)
+      (fun i hi => hP i (by omega)) L hS
+    rw [← hstep] at e1 e2 e4
+    have hk : k0 - 2 + 1 = (k0 + 1) - 2 := by omega
+    obtain ⟨i1, i2, i3⟩ := ih (k0 + 1) (tpStep vl.toArray L (k0 - 2)) (by omega) (by omega) e4
+    rw [hk]
+    have hPk : (P k0).2 = vl.toArray[k0]! := hP k0 (by omega)
+    have hst : (tpStep vl.toArray L (k0 - 2)).ri.map P =
+        P k0 :: (fpClose (L.ri.map P) (P k0).2).2 := by
+      rw [e1, hPk, e3]; rfl
+    rw [hst] at i2 i3
+    refine ⟨by rw [show k0 + (j + 1) = k0 + 1 + j by omega]; exact i1, i2, ?_⟩
+    rw [i3, e2, hPk, e3]
+    simp [posCyc, List.map_append]
+
+theorem amFold_first (l : List Int) : ∀ (k : Nat) (acc : Option (Int × Nat)),
+    (∀ a, acc = some a → a.2 < k) → (acc ≠ none ∨ l ≠ []) →
+    ∃ r, (l.zipIdx k).foldl amStep acc = some r ∧
+      (∀ x i, (x, i) ∈ l.zipIdx k → i < r.2 → x < r.1) ∧
+      (∀ a, acc = some a → r = a ∨ a.1 < r.1) := by
+  induction l with
+  | nil =>
+    intro k acc _ h
+    cases acc with
+    | none => simp at h
+    | some a => exact ⟨a, rfl, by simp, fun b hb => by cases hb; exact Or.inl rfl⟩
+  | cons x xs ih =>
+    intro k acc hacc _
+    simp only [List.zipIdx_cons, List.foldl_cons]
+    cases acc with
+    | none =>
+      obtain ⟨r, h1, h2, h3⟩ := ih (k + 1) (some (x, k)) (by intro a ha; cases ha; simp) (Or.inl (by simp))
+      refine ⟨r, h1, ?_, by simp⟩
+      intro y i hy hi
+      simp only [List.mem_cons, Prod.mk.injEq] at hy
+      rcases hy with ⟨rfl, rfl⟩ | hy
+      · rcases h3 _ rfl with h | h
+        · subst h; simp at hi
+        · exact h
+      · exact h2 y i hy hi
+    | some a =>
+      have hak : a.2 < k := hacc a rfl
+      by_cases c : x > a.1
+      · obtain ⟨r, h1, h2, h3⟩ := ih (k + 1) (some (x, k)) (by intro a ha; cases ha; simp) (Or.inl (by simp))
+        refine ⟨r, by simpa [amStep, c] using h1, ?_, ?_⟩
+        · intro y i hy hi
+          simp only [List.mem_cons, Prod.mk.injEq] at hy
+          rcases hy with ⟨rfl, rfl⟩ | hy
+          · rcases h3 _ rfl with h | h
+            · subst h; simp at hi
+            · exact h
+          · exact h2 y i hy hi
+        · intro b hb; cases hb
+          rcases h3 _ rfl with h | h
+          · subst h; exact Or.inr c
+          · simp only at h; exact Or.inr (by omega)
+      · obtain ⟨r, h1, h2, h3⟩ := ih (k + 1) (some a) (by intro b hb; cases hb; omega) (Or.inl (by simp))
+        refine ⟨r, by simpa [amStep, c] using h1, ?_, h3⟩
+        intro y i hy hi
+        simp only [List.mem_cons, Prod.mk.injEq] at hy
+        rcases hy with ⟨rfl, rfl⟩ | hy
+        · rcases h3 _ rfl with h | h
+          · subst h; omega
+          · omega
+        · exact h2 y i hy hi
+
+theorem argmax_first (l : List Int) (i : Nat) (hi : i < argmax l) : l[i]! < l[argmax l]! := by
+  by_cases hl : l = []
+  · subst hl; simp [argmax] at hi
+  obtain ⟨r, h1, h2, _⟩ := amFold_first l 0 none (by simp) (Or.inr hl)
+  obtain ⟨hlt, _⟩ := argmax_spec l hl
+  obtain ⟨r', h1', h2', _, _⟩ := amFold_spec l.zipIdx none (Or.inr (by simpa using hl))
+  rw [h1] at h1'
+  cases h1'
+  have hr : r ∈ l.zipIdx := by
+    rcases h2' with h | h
+    · cases h
+    · exact h
+  obtain ⟨v, j⟩ := r
+  obtain ⟨_, hj, hv⟩ := List.mem_zipIdx hr
+  have ha : argmax l = j := by simp [argmax_eq, h1]
+  rw [ha] at hi ⊢
+  simp only [Nat.zero_add, Nat.sub_zero] at hj hv
+  have hil : i < l.length := by omega
+  have hmem : (l[i], i) ∈ l.zipIdx := by
+    rw [List.mem_zipIdx_iff_getElem?]; simp [hil]
+  have := h2 _ _ hmem hi
+  simp only at this
+  simpa [hil, hj, ← hv] using this
+
+theorem isMaxPos_argmax (l rest : List Int) (hl : l ≠ []) :
+    IsMaxPos (fun i => (l ++ rest).toArray[i]!) l.length (argmax l) := by
+  obtain ⟨h1, h2⟩ := argmax_spec l hl
+  refine ⟨h1, ?_, ?_⟩
+  · intro i hi
+    simp only
+    rw [vals_prefix_get! l rest i hi, vals_prefix_get! l rest _ h1]
+    apply h2
+    simp [hi]
+  · intro i hi
+    simp only
+    rw [vals_prefix_get! l rest i (by omega), vals_prefix_get! l rest _ h1]
+    exact argmax_first l i hi
+
+theorem isMinPos_argmin (l rest : List Int) (hl : l ≠ []) :
+    IsMinPos (fun i => (l ++ rest).toArray[i]!) l.length (argmin l) := by
+  have hl' : l.map (fun x => -x) ≠ [] := by simpa using hl
+  obtain ⟨h1, h2⟩ := argmax_spec _ hl'
+  have h3 := argmax_first (l.map (fun x => -x))
+  simp only [List.length_map] at h1
+  have e : argmax (l.map fun x => -x) = argmin l := rfl
+  rw [e] at h1 h2 h3
+  have hneg : ∀ i, i < l.length → (l.map (fun x => -x))[i]! = - l[i]! := by
+    intro i hi; simp [hi]
+  refine ⟨h1, ?_, ?_⟩
+  · intro i hi
+    simp only
+    rw [vals_prefix_get! l rest i hi, vals_prefix_get! l rest _ h1]
+    have := h2 (-l[i]!) (by simp only [List.mem_map]; exact ⟨l[i]!, by simp [hi], rfl⟩)
+    rw [hneg _ h1] at this
+    omega
+  · intro i hi
+    simp only
+    rw [vals_prefix_get! l rest i (by omega), vals_prefix_get! l rest _ h1]
+    have := h3 i hi
+    rw [hneg _ h1, hneg i (by omega)] at this
+    omega
+
+/-- positions `m-1, …, 0` -/
+def downTo (m : Nat) : List Nat := (List.range m).reverse
+
+theorem downTo_succ (m : Nat) : downTo (m + 1) = m :: downTo m := by
+  simp [downTo, List.range_succ]
+
+theorem downTo_last (m : Nat) (hm : 1 ≤ m) : (downTo m).getLast? = some 0 := by
+  obtain ⟨m', rfl⟩ : ∃ m', m = m' + 1 := ⟨m - 1, by omega⟩
+  simp [downTo, List.getLast?_reverse, List.range_succ_eq_map]
+
+theorem downTo_mem (m i : Nat) : i ∈ downTo m ↔ i < m := by simp [downTo]
+
+theorem downTo_srt (m : Nat) : (downTo m).Pairwise (· > ·) := by
+  induction m with
+  | zero => simp [downTo]
+  | succ m ih =>
+    rw [downTo_succ, List.pairwise_cons]
+    exact ⟨fun i hi => (downTo_mem m i).1 hi, ih⟩
+
+theorem nest_downTo (v : Nat → Int) (m : Nat) : Nest v (downTo m) := by
+  induction m with
+  | zero => simp [downTo, Nest]
+  | succ m ih =>
+    rw [downTo_succ]
+    cases m with
+    | zero => simp [downTo, Nest]
+    | succ m' =>
+      rw [downTo_succ] at ih ⊢
+      exact ⟨fun i h1 h2 => by omega, ih⟩
+
+/-- Re-scanning a stored residual position `k` (all positions below are residual positions, the
+extreme positions refer to the whole stored residual) closes nothing. -/
+theorem rescan_step (t : Array Int) (k n hf lf : Nat) (cyc : List (Nat × Nat)) (fuel : Nat) (u : Bool)
+    (hk : 2 ≤ k) (hkn : k < n)
+    (hmax : IsMaxPos (fun i => t[i]!) n hf) (hmin : IsMinPos (fun i => t[i]!) n lf)
+    (ha : AltR u ((downTo (k + 1)).map (fun i => t[i]!)))
+    (hu : Uni ((downTo (k + 1)).map (fun i => t[i]!))) :
+    tpBack t k fuel ⟨downTo k, hf, lf, cyc⟩ = ⟨downTo (k + 1), hf, lf, cyc⟩ := by
+  cases fuel with
+  | zero => simp [tpBack, downTo_succ]
+  | succ fuel =>
+    obtain ⟨k', rfl⟩ : ∃ k', k = k' + 2 := ⟨k - 2, by omega⟩
+    rw [downTo_succ (k' + 2), downTo_succ (k' + 1), downTo_succ k'] at ha hu ⊢
+    have c1 : ¬ t[k' + 1]! > t[hf]! := by have := hmax.2.1 (k' + 1) (by omega); simp only at this; omega
+    have c2 : ¬ t[k' + 1]! < t[lf]! := by have := hmin.2.1 (k' + 1) (by omega); simp only at this; omega
+    have c3 : ¬ (k' ≥ max lf hf ∧ absDiff t[k' + 2]! t[k' + 1]! ≥ absDiff t[k' + 1]! t[k']!) := by
+      intro hc
+      simp only [List.map_cons] at ha hu
+      have hlast : ((k' + 1) :: k' :: downTo k').getLast? = some 0 := by
+        have := downTo_last (k' + 2) (by omega)
+        rwa [downTo_succ, downTo_succ] at this
+      have hnest : Nest (fun i => t[i]!) (k' :: downTo k') := by
+        have := nest_downTo (fun i => t[i]!) (k' + 1)
+        rwa [downTo_succ] at this
+      obtain ⟨a, r', h1, h2⟩ := claim_fwd (fun i => t[i]!) (!u) (k' + 1) k' (downTo k') n hf lf
+        (by simpa using ha.2) (by simpa using uni_tail _ _ hu) hnest hlast hmax hmin (by omega) hc.1
+      rw [h1] at hu
+      simp only [List.map_cons] at hu
+      have hu1 := hu.1
+      apply hu1
+      refine ⟨h2, ?_⟩
+      have := hc.2
+      unfold absDiff at this ⊢
+      omega
+    simp only [tpBack, if_neg c1, if_neg c2, if_neg c3]
+
+theorem uni_drop (pre l : List Int) (h : Uni (pre ++ l)) : Uni l := by
+  induction pre with
+  | nil => exact h
+  | cons p pre ih => exact ih (uni_tail p _ h)
+
+theorem downTo_add (m j : Nat) : downTo (m + j) = (List.range' m j).reverse ++ downTo m := by
+  induction j with
+  | zero => simp
+  | succ j ih =>
+    rw [← Nat.add_assoc, downTo_succ, ih, List.range'_concat]
+    simp
+
+/-- From a stage `k0` on, the remaining loop is `fpFeed` on the remaining turn points followed by
+`fpClose` with the last value. -/
+theorem loop_from_stage (vl : List Int) (P : Nat → Pt)
+    (hP : ∀ i, i + 1 < vl.length → (P i).2 = vl.toArray[i]!)
+    (k0 : Nat) (h2 : 2 ≤ k0) (hk : k0 + 1 ≤ vl.length) (L0 : TpLoop) (hS : Stage vl k0 L0) :
+    let Lf := (List.range' (k0 - 2) (vl.length - k0)).foldl (tpStep vl.toArray) L0
+    let r := fpFeed (L0.ri.map P) ((List.range' k0 (vl.length - 1 - k0)).map P)
+    let r2 := fpClose r.2 vl.toArray[vl.length - 1]!
+    Lf.cycles.map (posCyc P) = L0.cycles.map (posCyc P) ++ r.1 ++ r2.1 ∧
+      (Lf.ri.drop 1).map P = r2.2 ∧ Stage vl vl.length Lf := by
+  intro Lf r r2
+  have hsplit : List.range' (k0 - 2) (vl.length - k0) =
+      List.range' (k0 - 2) (vl.length - 1 - k0) ++ [vl.length - 3] := by
+    have : vl.length - k0 = (vl.length - 1 - k0) + 1 := by omega
+    rw [this, List.range'_concat]
+    congr 2
+    omega
+  obtain ⟨m1, m2, m3⟩ := main_fold vl P hP (vl.length - 1 - k0) k0 L0 h2 (by omega) hS
+  have hk1 : k0 + (vl.length - 1 - k0) = vl.length - 1 := by omega
+  rw [hk1] at m1
+  have hLf : Lf = tpBack vl.toArray (vl.length - 1)
+      (((List.range' (k0 - 2) (vl.length - 1 - k0)).foldl (tpStep vl.toArray) L0).ri.length / 2 + 1)
+      ((List.range' (k0 - 2) (vl.length - 1 - k0)).foldl (tpStep vl.toArray) L0) := by
+    show (List.range' (k0 - 2) (vl.length - k0)).foldl (tpStep vl.toArray) L0 = _
+    rw [hsplit, List.foldl_append]
+    simp only [List.foldl_cons, List.foldl_nil, tpStep]
+    have : vl.length - 3 + 2 = vl.length - 1 := by omega
+    rw [this]
+  obtain ⟨ri', cyc', e1, e2, e3, e4⟩ := stage_step vl P (vl.length - 1) (by omega) (by omega)
+    (fun i hi => hP i (by omega)) _ m1
+  rw [← hLf] at e1 e2 e4
+  have hN : vl.length - 1 + 1 = vl.length := by omega
+  rw [hN] at e4
+  refine ⟨?_, ?_, e4⟩
+  · rw [e2, List.map_append, m3]
+    show _ = _ ++ r.1 ++ (fpClose r.2 _).1
+    rw [show r.2 = _ from m2.symm, e3]
+    rfl
+  · rw [e1]
+    show _ = (fpClose r.2 _).2
+    rw [show r.2 = _ from m2.symm, e3]
+    rfl
+
+theorem rescan_fold (t : Array Int) (n hf lf : Nat) (u : Bool)
+    (hmax : IsMaxPos (fun i => t[i]!) n hf) (hmin : IsMinPos (fun i => t[i]!) n lf)
+    (ha : AltR u ((downTo n).map (fun i => t[i]!)))
+    (hu : Uni ((downTo n).map (fun i => t[i]!))) :
+    ∀ j, j + 2 ≤ n →
+      (List.range j).foldl (tpStep t) (tpInit hf lf) = ⟨downTo (j + 2), hf, lf, []⟩ := by
+  intro j
+  induction j with
+  | zero => intro _; rfl
+  | succ j ih =>
+    intro hj
+    rw [List.range_succ, List.foldl_append, ih (by omega)]
+    simp only [List.foldl_cons, List.foldl_nil, tpStep]
+    have hsplit : downTo n = (List.range' (j + 2 + 1) (n - (j + 2 + 1))).reverse ++ downTo (j + 2 + 1) := by
+      rw [← downTo_add]; congr 1; omega
+    rw [hsplit, List.map_append] at ha hu
+    obtain ⟨u', ha'⟩ := altR_drop _ _ u ha
+    exact rescan_step t (j + 2) n hf lf [] _ u' (by omega) (by omega) hmax hmin ha' (uni_drop _ _ hu)
+
+theorem stage_rescan (vl : List Int) (n hf lf : Nat) (u : Bool) (hn : 2 ≤ n) (hnN : n ≤ vl.length)
+    (hmax : IsMaxPos (fun i => vl.toArray[i]!) n hf) (hmin : IsMinPos (fun i => vl.toArray[i]!) n lf)
+    (ha : AltR u vl.reverse) (hu : Uni ((downTo n).map (fun i => vl.toArray[i]!))) :
+    (List.range (n - 2)).foldl (tpStep vl.toArray) (tpInit hf lf) = ⟨downTo n, hf, lf, []⟩ ∧
+      Stage vl n ⟨downTo n, hf, lf, []⟩ := by
+  obtain ⟨f1, f2⟩ := tpFold_alt vl u ha (by omega) hf lf (n - 2) (by omega)
+  have hn2 : n - 2 + 2 = n := by omega
+  rw [hn2] at f1
+  have ha' : ∃ u', AltR u' ((downTo n).map (fun i => vl.toArray[i]!)) := by
+    have h0 := tpFold_alt vl u ha (by omega) hf lf 0 (by omega)
+    -- values of all positions, newest first
+    have hall : vl.reverse = futRev vl n ++ (downTo n).map (fun i => vl.toArray[i]!) := by
+      have e := range_map_get! vl
+      have hsp : List.range' 0 vl.length = List.range' 0 n ++ List.range' n (vl.length - n) := by
+        have := List.range'_append (s := 0) (m := n) (n := vl.length - n) (step := 1)
+        simp only [Nat.zero_add, Nat.one_mul] at this
+        rw [this]; congr 1; omega
+      rw [hsp, List.map_append] at e
+      conv_lhs => rw [← e]
+      simp [futRev, downTo, List.range_eq_range']
+    rw [hall] at ha
+    exact altR_drop _ _ u ha
+  obtain ⟨u', ha'⟩ := ha'
+  have hfold := rescan_fold vl.toArray n hf lf u' hmax hmin ha' hu (n - 2) (by omega)
+  rw [hn2] at hfold
+  rw [hfold] at f1 f2
+  refine ⟨hfold, ?_⟩
+  obtain ⟨n', rfl⟩ : ∃ n', n = n' + 1 := ⟨n - 1, by omega⟩
+  exact {
+    srt := downTo_srt _
+    bnd := fun i hi => (downTo_mem _ i).1 hi
+    top := ⟨downTo n', by simp [downTo_succ]⟩
+    last := downTo_last _ (by omega)
+    alt := ⟨u, f1⟩
+    uni := hu
+    nest := nest_downTo _ _
+    ext := Or.inr ⟨hmax, hmin⟩ }
+
+theorem stage_init1 (vl : List Int) (u : Bool) (h3 : 3 ≤ vl.length) (ha : AltR u vl.reverse) :
+    Stage vl 2 (tpInit 0 0) := by
+  obtain ⟨f1, f2⟩ := tpFold_alt vl u ha (by omega) 0 0 0 (by omega)
+  simp only [List.range_zero, List.foldl_nil] at f1 f2
+  exact {
+    srt := by simp [tpInit]
+    bnd := by intro i hi; simp [tpInit] at hi; omega
+    top := ⟨[0], rfl⟩
+    last := rfl
+    alt := ⟨u, f1⟩
+    uni := trivial
+    nest := ⟨fun i h1 h2 => by omega, trivial⟩
+    ext := by
+      have h1 : IsMaxPos (fun i => vl.toArray[i]!) (2 - 1) 0 := by
+        refine ⟨by omega, ?_, fun i hi => by omega⟩
+        intro i hi
+        have : i = 0 := by omega
+        subst this; simp
+      have h2 : IsMinPos (fun i => vl.toArray[i]!) (2 - 1) 0 := by
+        refine ⟨by omega, ?_, fun i hi => by omega⟩
+        intro i hi
+        have : i = 0 := by omega
+        subst this; simp
+      exact Or.inl ⟨h1, h2⟩ }
+
+theorem range'_map_get! {α : Type} [Inhabited α] (pre l post : List α) :
+    (List.range' pre.length l.length).map (fun i => (pre ++ l ++ post).toArray[i]!) = l := by
+  apply List.ext_getElem
+  · simp
+  · intro i h1 h2
+    simp only [List.length_map, List.length_range'] at h1
+    simp only [List.getElem_map, List.getElem_range', Nat.one_mul, List.getElem!_toArray,
+      List.getElem!_eq_getElem?_getD]
+    rw [List.append_assoc, List.getElem?_append_right (by omega)]
+    simp only [Nat.add_sub_cancel_left]
+    rw [List.getElem?_append_left h1, List.getElem?_eq_getElem h1]
+    rfl
+
+theorem tpCore_eq_fp (base turns : List Pt) (d : Int) (hb : base ≠ []) (u : Bool)
+    (halt : AltR u (d :: (turns.reverse.map (·.2) ++ base.reverse.map (·.2))))
+    (huni : Uni (base.reverse.map (·.2))) :
+    tpCore base turns d =
+        ((fpFeed base.reverse turns).1 ++ (fpClose (fpFeed base.reverse turns).2 d).1,
+         (fpClose (fpFeed base.reverse turns).2 d).2) ∧
+      Uni (d :: (tpCore base turns d).2.map (·.2)) := by
+  unfold tpCore
+  simp only []
+  generalize hvl : (base ++ turns).map (·.2) ++ [d] = vl
+  generalize hPdef : (fun (i : Nat) => (base ++ turns).toArray[i]!) = P
+  have hPa : ∀ i : Nat, (base ++ turns).toArray[i]! = P i := fun i => by rw [← hPdef]
+  simp only [hPa]
+  have hrev : vl.reverse = d :: (turns.reverse.map (·.2) ++ base.reverse.map (·.2)) := by
+    rw [← hvl]; simp
+  have hlen : vl.length = base.length + turns.length + 1 := by rw [← hvl]; simp; omega
+  have hbl : 1 ≤ base.length := List.length_pos_iff.mpr hb
+  have hP : ∀ i, i + 1 < vl.length → (P i).2 = vl.toArray[i]! := by
+    intro i hi
+    have hi2 : i < (base ++ turns).length := by simp; omega
+    have hi3 : i < ((base ++ turns).map (·.2)).length := by simpa using hi2
+    rw [← hvl, ← hPdef]
+    simp only [List.getElem!_toArray, List.getElem!_eq_getElem?_getD]
+    rw [List.getElem?_append_left hi3, List.getElem?_map, List.getElem?_eq_getElem hi2]
+    rfl
+  have hlastv : vl.toArray[vl.length - 1]! = d := by rw [← hvl]; simp
+  have hPbase : (downTo base.length).map P = base.reverse := by
+    have := range'_map_get! [] base turns
+    simp only [List.length_nil, List.nil_append] at this
+    rw [← hPdef, downTo, List.map_reverse, List.range_eq_range', this]
+  have hPturns : (List.range' base.length turns.length).map P = turns := by
+    have := range'_map_get! base turns []
+    simp only [List.append_nil] at this
+    rw [← hPdef]; exact this
+  have hvbase : (downTo base.length).map (fun i => vl.toArray[i]!) = base.reverse.map (·.2) := by
+    have := range'_map_get! [] (base.map (·.2)) (turns.map (·.2) ++ [d])
+    simp only [List.length_nil, List.nil_append, List.length_map] at this
+    rw [← hvl, downTo, List.map_reverse, List.range_eq_range']
+    simp only [List.map_append, List.append_assoc] at this ⊢
+    rw [this, List.map_reverse]
+  have haltv : AltR u vl.reverse := by rw [hrev]; exact halt
+  -- the common final part
+  have fin : ∀ (k0 : Nat) (L0 : TpLoop), 2 ≤ k0 → k0 + 1 ≤ vl.length → Stage vl k0 L0 →
+      L0.cycles = [] →
+      (List.range (k0 - 2)).foldl (tpStep vl.toArray) (tpInit (argmax (base.map (·.2))) (argmin (base.map (·.2)))) = L0 →
+      fpFeed (L0.ri.map P) ((List.range' k0 (vl.length - 1 - k0)).map P) = fpFeed base.reverse turns →
+      ((tpLoop vl.toArray (argmax (base.map (·.2))) (argmin (base.map (·.2)))).cycles.map
+          (fun x => (P x.1, P x.2)),
+        ((tpLoop vl.toArray (argmax (base.map (·.2))) (argmin (base.map (·.2)))).ri.drop 1).map P) =
+        ((fpFeed base.reverse turns).1 ++ (fpClose (fpFeed base.reverse turns).2 d).1,
+          (fpClose (fpFeed base.reverse turns).2 d).2) ∧
+      Uni (d :: (((tpLoop vl.toArray (argmax (base.map (·.2))) (argmin (base.map (·.2)))).ri.drop 1).map P).map (·.2)) := by
+    intro k0 L0 h2 hk hS hc0 hfold hfeed
+    obtain ⟨r1, r2, r3⟩ := loop_from_stage vl P hP k0 h2 hk L0 hS
+    have hloop : tpLoop vl.toArray (argmax (base.map (·.2))) (argmin (base.map (·.2))) =
+        (List.range' (k0 - 2) (vl.length - k0)).foldl (tpStep vl.toArray) L0 := by
+      rw [tpLoop_eq, ← hfold, ← List.foldl_append, List.range_eq_range', List.range_eq_range']
+      simp only [List.size_toArray]
+      have := List.range'_append (s := 0) (m := k0 - 2) (n := vl.length - k0) (step := 1)
+      simp only [Nat.zero_add, Nat.one_mul] at this
+      rw [this]; congr 2; omega
+    rw [hfeed, hlastv, hc0] at r1
+    rw [hfeed, hlastv] at r2
+    rw [hloop]
+    have hpc : posCyc P = fun x => (P x.1, P x.2) := rfl
+    rw [hpc] at r1
+    refine ⟨Prod.ext ?_ r2, ?_⟩
+    · simpa using r1
+    · have hu := r3.uni
+      obtain ⟨r, hr⟩ := r3.top
+      have hbnd := r3.bnd
+      have hsrt := r3.srt
+      rw [hr] at hu hbnd hsrt ⊢
+      simp only [List.drop_one, List.tail_cons, List.map_cons, List.map_map] at hu ⊢
+      rw [hlastv] at hu
+      have : r.map (fun i => vl.toArray[i]!) = r.map ((·.2) ∘ P) := by
+        apply List.map_congr_left
+        intro i hi
+        simp only [List.pairwise_cons] at hsrt
+        have := hsrt.1 i hi
+        simp only [Function.comp]
+        exact (hP i (by omega)).symm
+      rw [← this]; exact hu
+  by_cases hn2 : 2 ≤ base.length
+  · -- a stored residual with at least two points is re-scanned first
+    have hmax := isMaxPos_argmax (base.map (·.2)) (turns.map (·.2) ++ [d]) (by simpa using hb)
+    have hmin := isMinPos_argmin (base.map (·.2)) (turns.map (·.2) ++ [d]) (by simpa using hb)
+    have hvl' : base.map (·.2) ++ (turns.map (·.2) ++ [d]) = vl := by rw [← hvl]; simp
+    rw [hvl', List.length_map] at hmax hmin
+    obtain ⟨s1, s2⟩ := stage_rescan vl base.length _ _ u hn2 (by omega) hmax hmin haltv
+      (by rw [hvbase]; exact huni)
+    apply fin base.length _ hn2 (by omega) s2 rfl s1
+    simp only
+    rw [hPbase]
+    have : vl.length - 1 - base.length = turns.length := by omega
+    rw [this, hPturns]
+  · have hb1 : base.length = 1 := by omega
+    obtain ⟨b0, rfl⟩ : ∃ b0, base = [b0] := by
+      match base, hb1 with
+      | [b0], _ => exact ⟨b0, rfl⟩
+    cases turns with
+    | nil =>
+      have : vl.length = 2 := by rw [hlen]; simp
+      have hl : tpLoop vl.toArray (argmax ([b0].map (·.2))) (argmin ([b0].map (·.2))) =
+          tpInit (argmax ([b0].map (·.2))) (argmin ([b0].map (·.2))) := by
+        rw [tpLoop_eq]; simp [this]
+      rw [hl]
+      have hP0 : P 0 = b0 := by rw [← hPdef]; simp
+      simp [tpInit, fpFeed, fpClose_one, hP0, Uni]
+    | cons t0 turns' =>
+      have ham : argmax ([b0].map (·.2)) = 0 := by simp [argmax]
+      have hami : argmin ([b0].map (·.2)) = 0 := by simp [argmin, argmax]
+      rw [ham, hami]
+      have h3 : 3 ≤ vl.length := by rw [hlen]; simp; omega
+      have s2 := stage_init1 vl u h3 haltv
+      have := fin 2 (tpInit 0 0) (by omega) (by omega) s2 rfl
+        (by rw [ham, hami]; rfl)
+      rw [ham, hami] at this
+      apply this
+      have hP0 : P 0 = b0 := by rw [← hPdef]; simp
+      have hP1 : P 1 = t0 := by rw [← hPdef]; simp
+      have hr := range'_map_get! [b0, t0] turns' []
+      simp only [List.append_nil, List.length_cons, List.length_nil] at hr
+      have hPt : (List.range' 2 (vl.length - 1 - 2)).map P = turns' := by
+        have : vl.length - 1 - 2 = turns'.length := by rw [hlen]; simp; omega
+        rw [this, ← hPdef]
+        exact hr
+      rw [hPt]
+      simp [tpInit, hP0, hP1, fpFeed, fpPush, fpClose_one]
+
+/-- What `HistInv` says about the inputs of the loop for the next chunk. -/
+theorem histInv_key (st : DetState) (c0 : Int) (tl : List Int) (h : HistInv st) :
+    tpBase st c0 ≠ [] ∧ ∃ dir, DirOk dir (c0 :: tl).getLast!
+      ((newTurns st.ts (c0 :: tl)).2.reverse.map (·.2) ++ (tpBase st c0).reverse.map (·.2)) := by
+  rcases h with rfl | ⟨s0, xs, h1, h2, h3, h4⟩
+  · have hnt : (newTurns {} (c0 :: tl)).2 = findTurnsAux 0 (0, c0) 1 c0 tl := by
+      have := newTurns_canon [] (c0 :: tl) (by simp)
+      rw [canonTs_nil] at this
+      rw [this]
+      simp [newTurnsOf, findTurns, shiftPts]
+    have hb : tpBase {} c0 = [(0, c0)] := rfl
+    have key := scan_dirOk tl 0 (0, c0) 1 c0 [c0] rfl (Or.inr (Or.inr ⟨rfl, rfl⟩))
+    rw [scanSt_prev] at key
+    refine ⟨by simp [hb], (scanSt 0 (0, c0) 1 c0 tl).1, ?_⟩
+    simp only [hnt, hb, getLast!_eq _ (List.cons_ne_nil c0 tl)]
+    simpa using key
+  · have hnt : (newTurns st.ts (c0 :: tl)).2 =
+        findTurnsAux (scanSt 0 (0, s0) 1 s0 xs).1 (scanSt 0 (0, s0) 1 s0 xs).2.1
+          (scanSt 0 (0, s0) 1 s0 xs).2.2.1 (scanSt 0 (0, s0) 1 s0 xs).2.2.2 (c0 :: tl) := by
+      rw [h1, newTurns_canon (s0 :: xs) (c0 :: tl) (by simp)]
+      exact newTurnsOf_eq_aux s0 xs (c0 :: tl)
+    have hb : tpBase st c0 = st.stack.reverse := by
+      simp [tpBase, h2]
+    have hprev : (scanSt 0 (0, s0) 1 s0 xs).2.2.2 = (s0 :: xs).getLast (List.cons_ne_nil _ _) :=
+      scanSt_prev xs 0 (0, s0) 1 s0
+    have key := scan_dirOk (c0 :: tl) (scanSt 0 (0, s0) 1 s0 xs).1 (scanSt 0 (0, s0) 1 s0 xs).2.1
+      (scanSt 0 (0, s0) 1 s0 xs).2.2.1 (scanSt 0 (0, s0) 1 s0 xs).2.2.2 (st.stack.map (·.2))
+      (scanSt_cand xs 0 (0, s0) 1 s0 rfl) (by rw [hprev]; exact h4)
+    rw [← scanSt_append, scanSt_prev] at key
+    have hlast2 := getLast_cons_append s0 xs (c0 :: tl) (List.cons_ne_nil _ _)
+    rw [hlast2] at key
+    refine ⟨by rw [hb]; simpa using h3, (scanSt 0 (0, s0) 1 s0 (xs ++ c0 :: tl)).1, ?_⟩
+    simp only [hnt, hb, getLast!_eq _ (List.cons_ne_nil c0 tl)]
+    simpa using key
+
+theorem fpProcess_cons (st : DetState) (s0 : Int) (tl : List Int) :
+    fpProcess st (s0 :: tl) =
+      { ts := (newTurns st.ts (s0 :: tl)).1,
+        stack := (fpClose (fpFeed (tpBase st s0).reverse (newTurns st.ts (s0 :: tl)).2).2
+          (s0 :: tl).getLast!).2,
+        last := some (s0 :: tl).getLast!,
+        cycles := st.cycles ++ (fpFeed (tpBase st s0).reverse (newTurns st.ts (s0 :: tl)).2).1 ++
+          (fpClose (fpFeed (tpBase st s0).reverse (newTurns st.ts (s0 :: tl)).2).2
+            (s0 :: tl).getLast!).1,
+        chunks := st.chunks ++ [(s0 :: tl).length] } := by
+  have hb : (tpBase st s0).reverse = if st.last.isNone then [(0, s0)] else st.stack := by
+    unfold tpBase; split <;> simp
+  simp only [fpProcess, hb]
+
+/-- One chunk: the three-point detector does exactly what the four-point detector does. -/
+theorem tp_eq_fp_step (st : DetState) (c : List Int) (h : HistInv st)
+    (hu : Uni (st.stack.map (·.2))) :
+    tpProcess st c = fpProcess st c ∧ Uni ((tpProcess st c).stack.map (·.2)) := by
+  cases c with
+  | nil => exact ⟨rfl, hu⟩
+  | cons c0 tl =>
+    obtain ⟨hb, dir, key⟩ := histInv_key st c0 tl h
+    have hub : Uni ((tpBase st c0).reverse.map (·.2)) := by
+      unfold tpBase; split
+      · trivial
+      · simpa using hu
+    rw [tpProcess_cons, fpProcess_cons]
+    have main : tpCore (tpBase st c0) (newTurns st.ts (c0 :: tl)).2 (c0 :: tl).getLast! =
+        ((fpFeed (tpBase st c0).reverse (newTurns st.ts (c0 :: tl)).2).1 ++
+          (fpClose (fpFeed (tpBase st c0).reverse (newTurns st.ts (c0 :: tl)).2).2
+            (c0 :: tl).getLast!).1,
+         (fpClose (fpFeed (tpBase st c0).reverse (newTurns st.ts (c0 :: tl)).2).2
+            (c0 :: tl).getLast!).2) ∧
+        Uni ((tpCore (tpBase st c0) (newTurns st.ts (c0 :: tl)).2 (c0 :: tl).getLast!).2.map (·.2)) := by
+      rcases key with ⟨_, ha⟩ | ⟨_, ha⟩ | ⟨_, hx⟩
+      · obtain ⟨e1, e2⟩ := tpCore_eq_fp _ _ _ hb true ha hub
+        exact ⟨e1, uni_tail _ _ e2⟩
+      · obtain ⟨e1, e2⟩ := tpCore_eq_fp _ _ _ hb false ha hub
+        exact ⟨e1, uni_tail _ _ e2⟩
+      · have hl : ((newTurns st.ts (c0 :: tl)).2.reverse.map (·.2) ++
+            (tpBase st c0).reverse.map (·.2)).length = 1 := by rw [hx]; rfl
+        simp only [List.length_append, List.length_map, List.length_reverse] at hl
+        have hbl : 0 < (tpBase st c0).length := List.length_pos_iff.mpr hb
+        have ht : (newTurns st.ts (c0 :: tl)).2 = [] := List.eq_nil_of_length_eq_zero (by omega)
+        rw [ht]
+        match hbase : tpBase st c0, hb, hl with
+        | [p], _, _ =>
+          have : tpCore [p] [] (c0 :: tl).getLast! = ([], [p]) := by simp [tpCore, tpLoop]
+          rw [this]
+          simp [fpFeed, fpClose_one, Uni]
+    obtain ⟨m1, m2⟩ := main
+    refine ⟨?_, m2⟩
+    rw [m1]
+    simp [List.append_assoc]
+
+/-- The three-point detector model and the four-point detector model compute the same state on
+every sequence of chunks. -/
+theorem tpRun_eq_fpRun (cs : List (List Int)) : tpRun cs = fpRun cs := by
+  unfold tpRun fpRun
+  have key : ∀ (st : DetState), HistInv st → Uni (st.stack.map (·.2)) →
+      cs.foldl tpProcess st = cs.foldl fpProcess st := by
+    induction cs with
+    | nil => intro st _ _; rfl
+    | cons c cs ih =>
+      intro st h hu
+      obtain ⟨e1, e2⟩ := tp_eq_fp_step st c h hu
+      simp only [List.foldl_cons]
+      rw [← e1]
+      exact ih _ (histInv_step st c h) e2
+  exact key {} (Or.inl rfl) trivial
 
 end PylifeVerif.ThreePoint
